@@ -21,32 +21,26 @@ impl ParamStatus {
 }
 
 pub fn fix_fn_param_idents(sig: &mut syn::Signature) {
-    if fix_ident_conflicts(sig).is_ok() {
-        return;
+    if !simplify_pat_idents(sig).is_ok() && !lift_inner_pat_idents(sig).is_ok() {
+        autogenerate_for_non_idents(sig);
     }
 
-    if lift_inner_pat_idents(sig).is_ok() {
-        return;
-    }
-
-    autogenerate_for_non_idents(sig);
+    fix_ident_conflicts(sig);
 }
 
-fn fix_ident_conflicts(sig: &mut syn::Signature) -> ParamStatus {
+/// Plain identifier patterns are reduced to the bare identifier,
+/// because binding modes and subpatterns are not allowed in trait methods without a body.
+fn simplify_pat_idents(sig: &mut syn::Signature) -> ParamStatus {
     let mut status = ParamStatus::Ok;
-    let fn_ident_string = sig.ident.to_string();
 
     for fn_arg in sig.inputs.iter_mut() {
         let arg_status = match fn_arg {
             syn::FnArg::Receiver(_) => ParamStatus::Ok,
             syn::FnArg::Typed(pat_type) => match pat_type.pat.as_mut() {
                 syn::Pat::Ident(param_ident) => {
-                    if param_ident.ident == fn_ident_string {
-                        param_ident.ident = syn::Ident::new(
-                            &format!("{}_", param_ident.ident),
-                            param_ident.ident.span(),
-                        );
-                    }
+                    param_ident.by_ref = None;
+                    param_ident.mutability = None;
+                    param_ident.subpat = None;
 
                     ParamStatus::Ok
                 }
@@ -58,6 +52,46 @@ fn fix_ident_conflicts(sig: &mut syn::Signature) -> ParamStatus {
     }
 
     status
+}
+
+/// No parameter may shadow the function that the generated method has to call.
+/// This runs last, so that lifted and generated identifiers are covered too.
+fn fix_ident_conflicts(sig: &mut syn::Signature) {
+    use syn::ext::IdentExt;
+
+    let fn_ident_string = sig.ident.unraw().to_string();
+    let mut taken_idents = taken_idents(sig);
+
+    for fn_arg in sig.inputs.iter_mut() {
+        if let syn::FnArg::Typed(pat_type) = fn_arg {
+            if let syn::Pat::Ident(param_ident) = pat_type.pat.as_mut() {
+                if param_ident.ident.unraw() == fn_ident_string {
+                    let mut new_ident_string = format!("{fn_ident_string}_");
+                    while taken_idents.contains(&new_ident_string) {
+                        new_ident_string.push('_');
+                    }
+                    taken_idents.insert(new_ident_string.clone());
+
+                    param_ident.ident = syn::Ident::new(&new_ident_string, param_ident.ident.span());
+                }
+            }
+        }
+    }
+}
+
+fn taken_idents(sig: &syn::Signature) -> HashSet<String> {
+    use syn::ext::IdentExt;
+
+    sig.inputs
+        .iter()
+        .filter_map(|fn_arg| match fn_arg {
+            syn::FnArg::Receiver(_) => None,
+            syn::FnArg::Typed(pat_type) => match pat_type.pat.as_ref() {
+                syn::Pat::Ident(pat_ident) => Some(pat_ident.ident.unraw().to_string()),
+                _ => None,
+            },
+        })
+        .collect()
 }
 
 fn lift_inner_pat_idents(sig: &mut syn::Signature) -> ParamStatus {
@@ -118,17 +152,7 @@ fn lift_inner_pat_idents(sig: &mut syn::Signature) -> ParamStatus {
 }
 
 fn autogenerate_for_non_idents(sig: &mut syn::Signature) {
-    let mut taken_idents: HashSet<String> = sig
-        .inputs
-        .iter()
-        .filter_map(|fn_arg| match fn_arg {
-            syn::FnArg::Receiver(_) => None,
-            syn::FnArg::Typed(pat_type) => match pat_type.pat.as_ref() {
-                syn::Pat::Ident(pat_ident) => Some(pat_ident.ident.to_string()),
-                _ => None,
-            },
-        })
-        .collect();
+    let mut taken_idents = taken_idents(sig);
 
     fn generate_ident(index: usize, attempts: usize, taken_idents: &mut HashSet<String>) -> String {
         let ident = format!(
